@@ -2,6 +2,7 @@ import LlirModel.Core3
 import LlirProofs.Core2Mod
 import LlirProofs.EncTokens
 import LlirProofs.MdNameLemmas
+import LlirProofs.Props.C11
 /-! M-Core-3: the line readers invert the printers (helper lemmas). -/
 namespace Llir.Core3
 open Llir Llir.Types Llir.Core2 Llir.Enc
@@ -1995,22 +1996,22 @@ theorem param_ty_step (t : Ty) (i : Ident) (tail : Bytes) (hi : identOK i) :
       = some (t, 32 :: (identString i ++ tail)) :=
   tyval_step (fun _ => false) t (.loc i) tail hi
 
-theorem readParams_print : ∀ (ps : List (Ty × Ident)), ps ≠ [] → (∀ p ∈ ps, identOK p.2) → ∀ f, ps.length ≤ f →
-    readParams f (paramsString ps ++ sOpen) = some (ps, sOpen)
-  | [], h, _, _, _ => absurd rfl h
-  | [(t, i)], _, hp, f, hf => by
+theorem readParams_print : ∀ (ps : List (Ty × Ident)), ps ≠ [] → (∀ p ∈ ps, identOK p.2) → ∀ (R : Bytes) f, ps.length ≤ f →
+    readParams f (paramsString ps ++ 41 :: R) = some (ps, 41 :: R)
+  | [], h, _, _, _, _ => absurd rfl h
+  | [(t, i)], _, hp, R, f, hf => by
     obtain ⟨f', rfl⟩ : ∃ f', f = f' + 1 := ⟨f - 1, by simp at hf; omega⟩
-    have e : paramsString [(t, i)] ++ sOpen = tyString t ++ 32 :: (identString i ++ sOpen) := by simp [paramsString]
+    have e : paramsString [(t, i)] ++ 41 :: R = tyString t ++ 32 :: (identString i ++ 41 :: R) := by simp [paramsString]
     rw [e, readParams, param_ty_step _ _ _ (hp (t, i) (by simp))]
-    simp only [readIdent_identString i sOpen (hp (t, i) (by simp)) (by simpa using (sOpen_identEnd (r := [])))]
-    simp [sOpen]
-  | (t, i) :: q :: ps, _, hp, f, hf => by
+    simp only [readIdent_identString i (41 :: R) (hp (t, i) (by simp)) (by simp [identEnd, inTail, inHead, isAlpha, isUpper, isLower, isDigit])]
+    rfl
+  | (t, i) :: q :: ps, _, hp, R, f, hf => by
     obtain ⟨f', rfl⟩ : ∃ f', f = f' + 1 := ⟨f - 1, by simp at hf; omega⟩
-    have e : paramsString ((t, i) :: q :: ps) ++ sOpen = tyString t ++ 32 :: (identString i ++ (sComma ++ (paramsString (q :: ps) ++ sOpen))) := by
+    have e : paramsString ((t, i) :: q :: ps) ++ 41 :: R = tyString t ++ 32 :: (identString i ++ (sComma ++ (paramsString (q :: ps) ++ 41 :: R))) := by
       simp [paramsString]
-    have ih := readParams_print (q :: ps) (by simp) (fun x hx => hp x (by simp [hx])) f' (by simp at hf ⊢; omega)
+    have ih := readParams_print (q :: ps) (by simp) (fun x hx => hp x (by simp [hx])) R f' (by simp at hf ⊢; omega)
     rw [e, readParams, param_ty_step _ _ _ (hp (t, i) (by simp))]
-    have hri := readIdent_identString i (sComma ++ (paramsString (q :: ps) ++ sOpen)) (hp (t, i) (by simp))
+    have hri := readIdent_identString i (sComma ++ (paramsString (q :: ps) ++ 41 :: R)) (hp (t, i) (by simp))
       (by simp [sComma, identEnd, inTail, inHead, isAlpha, isUpper, isLower, isDigit])
     simp only [hri]
     simp [sComma, ih]
@@ -2036,58 +2037,296 @@ theorem paramsString_head (p : Ty × Ident) (ps : List (Ty × Ident)) :
   | nil => exact ⟨c, rest ++ ([32] ++ identString i), by simp [paramsString, h], h41⟩
   | cons q qs => exact ⟨c, rest ++ ([32] ++ identString i ++ sComma ++ paramsString (q :: qs)), by simp [paramsString, h], h41⟩
 
+/-! ### the clauses behind the parameter list -/
+
+theorem kTail_diverge : keysDiverge kTail = true := by decide +kernel
+
+/-- no clause keyword followed by a space starts one of the other clause openers; the openers diverge from each other -/
+theorem kTail_vs_openers : kTail.all (fun k => diverge (k ++ [32]) sAddrspaceOpen && diverge (k ++ [32]) sAlignSp &&
+    kStr.all (fun q => diverge (k ++ [32]) (q ++ [32, 34]))) = true := by decide +kernel
+theorem openers_diverge : diverge sAddrspaceOpen sAlignSp = true ∧ kStr.all (fun q => diverge sAddrspaceOpen (q ++ [32, 34]) && diverge sAlignSp (q ++ [32, 34])) = true := by
+  decide +kernel
+
+def itemOK : HItem → Prop
+  | .kw i => i < kTail.length
+  | .addrspace _ => True
+  | .str w _ => w < kStr.length
+  | .align _ => True
+
+theorem findFlag_kTail_none (L x : Bytes) (h : kTail.all (fun k => diverge (k ++ [32]) L) = true) : findFlag 0 kTail (L ++ x) = none := by
+  apply findFlag_none
+  intro k hk
+  exact stripPrefix_diverge _ _ _ (List.all_eq_true.mp h k hk)
+
+theorem quote_split' (s r : Bytes) :
+    (Enc.escapeString s ++ 34 :: r).dropWhile (· != 34) = 34 :: r ∧ (Enc.escapeString s ++ 34 :: r).takeWhile (· != 34) = Enc.escapeString s := by
+  have hq : ∀ b ∈ Enc.escapeString s, b ≠ 34 := TyParse.escape_no_quote Enc.validString (by decide) s
+  have := TyParse.takeWhile_append_stop (· != 34) (Enc.escapeString s) (34 :: r) (fun x hx => by simpa using hq x hx) (by simp)
+  exact ⟨this.2, this.1⟩
+
+theorem readStrItem_print (s rest : Bytes) : ∀ (ks : List Bytes) (w0 w : Nat) (k : Bytes), ks[w]? = some k →
+    (∀ j q, j < w → ks[j]? = some q → diverge (q ++ [32, 34]) (k ++ [32, 34]) = true) →
+    readStrItem w0 ks (k ++ [32] ++ Enc.quote s ++ [32] ++ rest) = some (.str (w0 + w) s, rest)
+  | [], _, _, _, h, _ => by simp at h
+  | q :: ks, w0, 0, k, h, _ => by
+    simp at h; subst h
+    have e : q ++ [32] ++ Enc.quote s ++ [32] ++ rest = (q ++ [32, 34]) ++ (Enc.escapeString s ++ 34 :: 32 :: rest) := by simp [Enc.quote]
+    obtain ⟨h1, h2⟩ := quote_split' s (32 :: rest)
+    simp only [readStrItem, e, TyParse.stripPrefix_append, h1, h2, Props.C11.unescape_escapeString, Nat.add_zero]
+  | q :: ks, w0, w + 1, k, h, hd => by
+    have hq := hd 0 q (by omega) (by simp)
+    have e : k ++ [32] ++ Enc.quote s ++ [32] ++ rest = (k ++ [32, 34]) ++ (Enc.escapeString s ++ 34 :: 32 :: rest) := by simp [Enc.quote]
+    have hn : TyParse.stripPrefix (q ++ [32, 34]) (k ++ [32] ++ Enc.quote s ++ [32] ++ rest) = none := by
+      rw [e]; exact stripPrefix_diverge _ _ _ hq
+    have ih := readStrItem_print s rest ks (w0 + 1) w k (by simpa using h) (fun j q' hj hq' => hd (j + 1) q' (by omega) (by simpa using hq'))
+    simp only [readStrItem, hn, ih]
+    have : w0 + 1 + w = w0 + (w + 1) := by omega
+    rw [this]
+
+theorem kStr_diverge : ∀ (w : Nat) (k : Bytes), kStr[w]? = some k → ∀ j q, j < w → kStr[j]? = some q → diverge (q ++ [32, 34]) (k ++ [32, 34]) = true := by
+  intro w k hk j q hj hq
+  have hw : w < 3 := by
+    have := List.getElem?_eq_some_iff.mp hk
+    obtain ⟨h, _⟩ := this; simpa [kStr] using h
+  have : w = 1 ∨ w = 2 := by omega
+  rcases this with rfl | rfl
+  · have : j = 0 := by omega
+    subst this; simp [kStr] at hk hq; subst hk hq; decide
+  · have : j = 0 ∨ j = 1 := by omega
+    rcases this with rfl | rfl <;> (simp [kStr] at hk hq; subst hk hq; decide)
+
+/-- one clause and the space behind it, read back -/
+theorem readItem_print (it : HItem) (hi : itemOK it) (rest : Bytes) : readItem (itemString it ++ [32] ++ rest) = some (it, rest) := by
+  cases it with
+  | kw i =>
+    have hk : kTail[i]? = some (kTail.getD i []) := by simp [List.getD, List.getElem?_eq_getElem (show i < kTail.length from hi)]
+    have := findFlag_spec kTail 0 i (kTail.getD i []) rest kTail_diverge hk
+    simp only [readItem, itemString, this, Nat.zero_add]
+  | addrspace n =>
+    have e : itemString (.addrspace n) ++ [32] ++ rest = sAddrspaceOpen ++ (natDec n ++ 41 :: 32 :: rest) := by simp [itemString]
+    have hf := findFlag_kTail_none sAddrspaceOpen (natDec n ++ 41 :: 32 :: rest) (by
+      have := kTail_vs_openers; simp only [List.all_eq_true, Bool.and_eq_true] at this ⊢; exact fun k hk => (this k hk).1.1)
+    rw [e]
+    simp only [readItem, hf, TyParse.stripPrefix_append, TyParse.readNat_natDec n (41 :: 32 :: rest) (by simp [isDigit])]
+  | align n =>
+    have e : itemString (.align n) ++ [32] ++ rest = sAlignSp ++ (natDec n ++ 32 :: rest) := by simp [itemString]
+    have hf := findFlag_kTail_none sAlignSp (natDec n ++ 32 :: rest) (by
+      have := kTail_vs_openers; simp only [List.all_eq_true, Bool.and_eq_true] at this ⊢; exact fun k hk => (this k hk).1.2)
+    have ha : TyParse.stripPrefix sAddrspaceOpen (sAlignSp ++ (natDec n ++ 32 :: rest)) = none := stripPrefix_diverge _ _ _ openers_diverge.1
+    rw [e]
+    simp only [readItem, hf, ha, TyParse.stripPrefix_append, TyParse.readNat_natDec n (32 :: rest) (by simp [isDigit])]
+  | str w s =>
+    have hw : w < kStr.length := hi
+    have hk : kStr[w]? = some (kStr.getD w []) := by simp [List.getD, List.getElem?_eq_getElem hw]
+    have e : itemString (.str w s) ++ [32] ++ rest = (kStr.getD w [] ++ [32, 34]) ++ (Enc.escapeString s ++ 34 :: 32 :: rest) := by simp [itemString, Enc.quote]
+    have hmem : kStr.getD w [] ∈ kStr := List.mem_of_getElem? hk
+    have hf : findFlag 0 kTail (itemString (.str w s) ++ [32] ++ rest) = none := by
+      rw [e]
+      apply findFlag_kTail_none
+      have := kTail_vs_openers
+      simp only [List.all_eq_true, Bool.and_eq_true] at this ⊢
+      exact fun k hk' => (this k hk').2 _ hmem
+    have hop := openers_diverge.2
+    simp only [List.all_eq_true, Bool.and_eq_true] at hop
+    have ha : TyParse.stripPrefix sAddrspaceOpen (itemString (.str w s) ++ [32] ++ rest) = none := by rw [e]; exact stripPrefix_diverge _ _ _ (hop _ hmem).1
+    have hl : TyParse.stripPrefix sAlignSp (itemString (.str w s) ++ [32] ++ rest) = none := by rw [e]; exact stripPrefix_diverge _ _ _ (hop _ hmem).2
+    have hs := readStrItem_print s rest kStr 0 w (kStr.getD w []) hk (kStr_diverge w _ hk)
+    have e2 : itemString (.str w s) ++ [32] ++ rest = kStr.getD w [] ++ [32] ++ Enc.quote s ++ [32] ++ rest := by simp [itemString]
+    simp only [readItem, hf, ha, hl]
+    rw [e2, hs]; simp
+
+theorem itemString_head (it : HItem) (hi : itemOK it) (rest : Bytes) : (itemString it ++ [32] ++ rest).head? ≠ some 123 := by
+  cases it with
+  | kw i =>
+    have hk : kTail.getD i [] ∈ kTail := by
+      have : kTail[i]? = some (kTail.getD i []) := by simp [List.getD, List.getElem?_eq_getElem (show i < kTail.length from hi)]
+      exact List.mem_of_getElem? this
+    have hall : kTail.all (fun k => (k ++ [32]).head? != some 123) = true := by decide +kernel
+    have := List.all_eq_true.mp hall _ hk
+    intro h
+    cases hkk : kTail.getD i [] with
+    | nil =>
+      have e : itemString (.kw i) = [] := by simp only [itemString]; exact hkk
+      rw [e] at h; simp at h
+    | cons c r =>
+      have e : itemString (.kw i) = c :: r := by simp only [itemString]; exact hkk
+      rw [e] at h
+      rw [hkk] at this
+      simp at h this
+      exact this h
+  | addrspace n => simp [itemString, sAddrspaceOpen]
+  | align n => simp [itemString, sAlignSp]
+  | str w s =>
+    have hw : w < kStr.length := hi
+    have : w = 0 ∨ w = 1 ∨ w = 2 := by simp [kStr] at hw; omega
+    rcases this with rfl | rfl | rfl <;> simp [itemString, kStr, List.getD]
+
+theorem itemsString_len : ∀ (its : List HItem), its.length ≤ (itemsString its).length
+  | [] => by simp [itemsString]
+  | it :: its => by have := itemsString_len its; simp only [itemsString, List.length_append, List.length_cons, List.length_nil]; omega
+
+theorem readItems_print : ∀ (its : List HItem), (∀ it ∈ its, itemOK it) → ∀ (rest : Bytes) (f : Nat), its.length + 1 ≤ f →
+    readItems f (itemsString its ++ 123 :: rest) = some (its, 123 :: rest)
+  | [], _, rest, f, hf => by
+    obtain ⟨f', rfl⟩ : ∃ f', f = f' + 1 := ⟨f - 1, by simp at hf; omega⟩
+    simp [itemsString, readItems]
+  | it :: its, h, rest, f, hf => by
+    obtain ⟨f', rfl⟩ : ∃ f', f = f' + 1 := ⟨f - 1, by simp at hf; omega⟩
+    have ih := readItems_print its (fun x hx => h x (by simp [hx])) rest f' (by simp at hf ⊢; omega)
+    have hi := h it (by simp)
+    have e : itemsString (it :: its) ++ 123 :: rest = itemString it ++ [32] ++ (itemsString its ++ 123 :: rest) := by simp [itemsString]
+    have hh := itemString_head it hi (itemsString its ++ 123 :: rest)
+    rw [e]
+    have hb : ((itemString it ++ [32] ++ (itemsString its ++ 123 :: rest)).head? == some 123) = false := by
+      cases hx : (itemString it ++ [32] ++ (itemsString its ++ 123 :: rest)).head? == some 123 with
+      | false => rfl
+      | true => exact absurd (by simpa using hx) hh
+    simp only [readItems, hb, Bool.false_eq_true, if_false, readItem_print it hi, ih]
+
+/-! the translation of the clauses (`foldItems`) gives the fields back -/
+
+def tailFieldsOK (t : HTail) : Prop :=
+  (∀ i ∈ t.unnamed, i < 2) ∧ t.addrspace < 2 ^ 64 ∧ (∀ i ∈ t.attrs, i < kFuncAttr.length) ∧ t.align < 2 ^ 64
+
+theorem foldlM_attrs : ∀ (as : List Nat) (ph : Nat) (t : HTail), (∀ i ∈ as, i < kFuncAttr.length) →
+    ∃ ph', (as.map (fun i => HItem.kw (i + 2))).foldlM applyItem (ph, t) = some (ph', { t with attrs := t.attrs ++ as })
+  | [], ph, t, _ => ⟨ph, by simp⟩
+  | a :: as, ph, t, h => by
+    have ha : a < kFuncAttr.length := h a (by simp)
+    have h1 : ¬ (a + 2 < 2) := by omega
+    have h2 : a + 2 < kTail.length := by
+      have : kTail.length = 2 + kFuncAttr.length := by simp [kTail, kUnnamed]; omega
+      omega
+    obtain ⟨ph', hf⟩ := foldlM_attrs as 2 { t with attrs := t.attrs ++ [a] } (fun i hi => h i (by simp [hi]))
+    refine ⟨ph', ?_⟩
+    simp only [List.map_cons, List.foldlM_cons, applyItem, h1, if_false, h2, if_true, Nat.add_sub_cancel, Option.bind_eq_bind, Option.bind_some]
+    rw [hf]; simp [List.append_assoc]
+
+theorem foldlM_rest (ph : Nat) (t : HTail) (sect part gc : Bytes) (al : Nat) (hal : al < 2 ^ 64)
+    (h0 : t.sect = [] ∧ t.partition = [] ∧ t.align = 0 ∧ t.gc = []) :
+    ∃ ph', (optItem sect.isEmpty (.str 0 sect) ++ (optItem part.isEmpty (.str 1 part) ++ (optItem (al == 0) (.align al) ++ optItem gc.isEmpty (.str 2 gc)))).foldlM
+        applyItem (ph, t) = some (ph', { t with sect := sect, partition := part, align := al, gc := gc }) := by
+  obtain ⟨tu, ta, tat, ts, tp, tal, tg⟩ := t
+  simp only at h0
+  obtain ⟨rfl, rfl, rfl, rfl⟩ := h0
+  by_cases hs : sect = [] <;> by_cases hp : part = [] <;> by_cases hz : al = 0 <;> by_cases hg : gc = [] <;>
+    simp [optItem, hs, hp, hz, hg, applyItem, hal, List.isEmpty_iff]
+
+theorem foldItems_itemsOf (t : HTail) (h : tailFieldsOK t) : foldItems (itemsOf t) = some t := by
+  obtain ⟨hu, ha, hattr, hal⟩ := h
+  obtain ⟨u, asp, attrs, sect, part, al, gc⟩ := t
+  simp only at hu ha hattr hal
+  unfold foldItems itemsOf
+  simp only
+  -- unnamed_addr
+  have s1 : ∃ ph, ph ≤ 1 ∧ (unnamedItems u).foldlM applyItem (0, ({} : HTail)) = some (ph, ({ unnamed := u } : HTail)) := by
+    cases u with
+    | none => exact ⟨0, by omega, rfl⟩
+    | some i =>
+      have : i < 2 := hu i (by simp)
+      exact ⟨1, by omega, by simp [unnamedItems, applyItem, this]⟩
+  obtain ⟨p1, hp1, e1⟩ := s1
+  -- addrspace
+  have s2 : ∃ ph, (optItem (asp == 0) (.addrspace asp)).foldlM applyItem (p1, ({ unnamed := u } : HTail)) =
+      some (ph, ({ unnamed := u, addrspace := asp } : HTail)) := by
+    by_cases hz : asp = 0
+    · subst hz; exact ⟨p1, by simp [optItem]⟩
+    · have hz' : (asp == 0) = false := by simpa using hz
+      refine ⟨2, ?_⟩
+      simp [optItem, hz', applyItem, hp1, ha]
+  obtain ⟨p2, e2⟩ := s2
+  obtain ⟨p3, e3⟩ := foldlM_attrs attrs p2 ({ unnamed := u, addrspace := asp } : HTail) hattr
+  obtain ⟨p4, e4⟩ := foldlM_rest p3 ({ unnamed := u, addrspace := asp, attrs := [] ++ attrs } : HTail) sect part gc al hal ⟨rfl, rfl, rfl, rfl⟩
+  simp only [List.nil_append] at e3 e4
+  rw [List.foldlM_append, e1]
+  simp only [Option.bind_eq_bind, Option.bind_some]
+  rw [List.foldlM_append, e2]
+  simp only [Option.bind_eq_bind, Option.bind_some]
+  rw [List.foldlM_append, e3]
+  simp only [Option.bind_eq_bind, Option.bind_some]
+  rw [e4]
+  rfl
+
+theorem itemsOf_ok (t : HTail) (h : tailFieldsOK t) : ∀ it ∈ itemsOf t, itemOK it := by
+  obtain ⟨hu, _, hattr, _⟩ := h
+  intro it hit
+  simp only [itemsOf, List.mem_append, List.mem_map] at hit
+  have hlen : kTail.length = 2 + kFuncAttr.length := by simp [kTail, kUnnamed]; omega
+  have hopt : ∀ (c : Bool) (x : HItem), it ∈ optItem c x → it = x := by
+    intro c x hx; unfold optItem at hx; split at hx <;> simp at hx; exact hx
+  rcases hit with hit | hit | ⟨i, hi, rfl⟩ | hit | hit | hit | hit
+  · cases hu' : t.unnamed with
+    | none => simp [hu', unnamedItems] at hit
+    | some i =>
+      simp [hu', unnamedItems] at hit; subst hit
+      have := hu i (by simp [hu'])
+      show i < kTail.length; omega
+  · rw [hopt _ _ hit]; trivial
+  · show i + 2 < kTail.length; have := hattr i hi; omega
+  · rw [hopt _ _ hit]; show 0 < kStr.length; decide
+  · rw [hopt _ _ hit]; show 1 < kStr.length; decide
+  · rw [hopt _ _ hit]; trivial
+  · rw [hopt _ _ hit]; show 2 < kStr.length; decide
+
+theorem readTail_print (t : HTail) (h : tailFieldsOK t) : readTail (41 :: 32 :: (itemsString (itemsOf t) ++ [123])) = some t := by
+  have hr := readItems_print (itemsOf t) (itemsOf_ok t h) [] ((itemsString (itemsOf t) ++ [123]).length + 1) (by
+    have := itemsString_len (itemsOf t); simp only [List.length_append]; omega)
+  simp only [readTail, hr, foldItems_itemsOf t h]
+
 def headerOK (f : Func) : Prop :=
   f.name ≠ [] ∧ (∀ p ∈ f.params, identOK p.2) ∧ (∀ i ∈ f.lead, i < kLead.length) ∧
-    ∀ k ∈ kLead, TyParse.stripPrefix (k ++ [32]) (headerRest f) = none
+    (∀ k ∈ kLead, TyParse.stripPrefix (k ++ [32]) (headerRest f) = none) ∧ tailFieldsOK f.tail
 
 /-- the keywords of a function header are pairwise divergent: the reader of the keyword list finds each of them (decided on the list) -/
 theorem kLead_diverge : keysDiverge kLead = true := by decide +kernel
 
 /-- the header from the return type on, read back -/
-theorem readHeaderRest_print (f : Func) (hn : f.name ≠ []) (hp : ∀ p ∈ f.params, identOK p.2) (lead : List Nat) :
+theorem readHeaderRest_print (f : Func) (hn : f.name ≠ []) (hp : ∀ p ∈ f.params, identOK p.2) (ht : tailFieldsOK f.tail) (lead : List Nat) :
     (match TyParse.parseTy (tyFuel (headerRest f)) (headerRest f) with
      | some (rt, 32 :: 64 :: r1) =>
        (match takeBody r1 with
         | some (tok, 40 :: r2) =>
           (match Enc.decodeIdentBody tok with
            | .name n =>
-             if r2.head? == some 41 then (if r2 == sOpen then some (lead, rt, n, []) else none)
+             if r2.head? == some 41 then (match readTail r2 with | some tl => some (lead, rt, n, [], tl) | none => none)
              else (match readParams (r2.length + 1) r2 with
-                   | some (ps, r3) => if r3 == sOpen then some (lead, rt, n, ps) else none
+                   | some (ps, r3) => (match readTail r3 with | some tl => some (lead, rt, n, ps, tl) | none => none)
                    | none => none)
            | .id _ => none)
         | _ => none)
-     | _ => none) = some (lead, f.ret, f.name, f.params) := by
+     | _ => none) = some (lead, f.ret, f.name, f.params, f.tail) := by
   unfold headerRest
   simp only [List.append_assoc, globalName_eq, List.cons_append, List.singleton_append, List.nil_append]
-  have hty : TyParse.parseTy (tyFuel (tyString f.ret ++ 32 :: 64 :: (nameBody f.name ++ 40 :: (paramsString f.params ++ sOpen))))
-      (tyString f.ret ++ 32 :: 64 :: (nameBody f.name ++ 40 :: (paramsString f.params ++ sOpen)))
-      = some (f.ret, 32 :: 64 :: (nameBody f.name ++ 40 :: (paramsString f.params ++ sOpen))) := by
+  generalize hR : 41 :: 32 :: (itemsString (itemsOf f.tail) ++ [123]) = R
+  have hrt : readTail R = some f.tail := by rw [← hR]; exact readTail_print f.tail ht
+  have hty : TyParse.parseTy (tyFuel (tyString f.ret ++ 32 :: 64 :: (nameBody f.name ++ 40 :: (paramsString f.params ++ R))))
+      (tyString f.ret ++ 32 :: 64 :: (nameBody f.name ++ 40 :: (paramsString f.params ++ R)))
+      = some (f.ret, 32 :: 64 :: (nameBody f.name ++ 40 :: (paramsString f.params ++ R))) := by
     apply TyParse.parseTy_tyString_gen
     · simp [TyParse.cont]
     · simp [TyParse.stopG]
     · have := TyParse.w_le_len f.ret
       unfold tyFuel; simp only [List.length_append]; omega
   rw [hty]
-  have htb := takeBody_nameBody f.name (40 :: (paramsString f.params ++ sOpen)) hn (by simp [identEnd, inTail, inHead, isAlpha, isUpper, isLower, isDigit])
+  have htb := takeBody_nameBody f.name (40 :: (paramsString f.params ++ R)) hn (by simp [identEnd, inTail, inHead, isAlpha, isUpper, isLower, isDigit])
   simp only [htb, decode_nameBody f.name hn]
   cases hps : f.params with
-  | nil => simp [paramsString, sOpen]
+  | nil => subst hR; simp only [paramsString, List.nil_append, List.head?_cons, beq_self_eq_true, if_true, hrt]
   | cons p ps =>
     obtain ⟨c, rest, hh, h41⟩ := paramsString_head p ps
-    have hd : ((paramsString (p :: ps) ++ sOpen).head? == some 41) = false := by rw [hh]; simp [h41]
-    have hr := readParams_print (p :: ps) (by simp) (by rw [← hps]; exact hp) ((paramsString (p :: ps) ++ sOpen).length + 1) (by
+    have hd : ((paramsString (p :: ps) ++ R).head? == some 41) = false := by rw [hh]; simp [h41]
+    have hr := readParams_print (p :: ps) (by simp) (by rw [← hps]; exact hp) (32 :: (itemsString (itemsOf f.tail) ++ [123])) ((paramsString (p :: ps) ++ R).length + 1) (by
       have := paramsString_len (p :: ps); simp only [List.length_append] at this ⊢; omega)
-    simp only [hd, Bool.false_eq_true, if_false, hr]
-    simp
+    rw [hR] at hr
+    simp only [hd, Bool.false_eq_true, if_false, hr, hrt]
 
-theorem readHeader_print (f : Func) (h : headerOK f) : readHeader (headerString f) = some (f.lead, f.ret, f.name, f.params) := by
-  obtain ⟨hn, hp, hl, hrest⟩ := h
+theorem readHeader_print (f : Func) (h : headerOK f) : readHeader (headerString f) = some (f.lead, f.ret, f.name, f.params, f.tail) := by
+  obtain ⟨hn, hp, hl, hrest, ht⟩ := h
   unfold headerString readHeader
   simp only [List.append_assoc, TyParse.stripPrefix_append]
   have hf := readFlags_print kLead (headerRest f) kLead_diverge hrest f.lead ((flagsString kLead f.lead ++ headerRest f).length + 1) hl (by
     have := flagsString_len kLead f.lead; simp only [List.length_append]; omega)
   simp only [hf]
-  exact readHeaderRest_print f hn hp f.lead
+  exact readHeaderRest_print f hn hp ht f.lead
 
 end Llir.Core3
